@@ -14,7 +14,10 @@ import (
 )
 
 const (
-	KeysIndexSep       = "_"
+	// KeysIndexSep joins the elements of a path to the key of the store indexes. It must not be able to occur inside
+	// a path element: node names and key values may contain '_' (and any other printable character), with a printable
+	// separator different paths share one index key ([a_b c] / [a b_c]) or look like branch and descendant.
+	KeysIndexSep       = "\x00"
 	DefaultValuesPrio  = int32(math.MaxInt32 - 90)
 	DefaultsIntentName = "default"
 	RunningValuesPrio  = int32(math.MaxInt32 - 100)
